@@ -19,6 +19,18 @@ func CheckFilename(name string) error {
 	return nil
 }
 
+// CheckNoDirectories refuses a list of paths one of which is a directory:
+// the files an upload lists are files, and a directory that happens to sit
+// under a listed name would be renamed (or, when empty, removed) whole.
+func CheckNoDirectories(paths []string) error {
+	for _, path := range paths {
+		if info, err := os.Lstat(path); err == nil && info.IsDir() {
+			return fmt.Errorf("Refusing to touch '%s': it is a directory", path)
+		}
+	}
+	return nil
+}
+
 func Copy(source, dest string) error {
 	in, err := os.Open(source)
 	if err != nil {
